@@ -50,7 +50,7 @@ def _plain(tr, allow=PLAIN_STEPS + ("closure_capture",)):
     return [s for s in tr.steps if s[0] not in allow]
 
 
-@rule("R01.1", 17, "streaming visitor: visit_T forwards to serialize_T with the uncast payload (type identity of the scalar table)", ["C01"])
+@rule("R01.1", 17, "streaming visitor: visit_T forwards to serialize_T with the uncast payload (type identity of the scalar table)", ["C01", "C06"])
 def r01_1(ctx):
     lib = ctx.lib
     stream, _ = visitor_impls(lib)
@@ -93,7 +93,7 @@ def _lower(v):
     return v.lower()
 
 
-@rule("R01.3", 21, "borrowed Value: visit_T -> variant -> serialize_T compose to the identity; strings/bytes/collections keep payload and order", ["C01"])
+@rule("R01.3", 21, "borrowed Value: visit_T -> variant -> serialize_T compose to the identity; strings/bytes/collections keep payload and order", ["C01", "C06"])
 def r01_3(ctx):
     lib = ctx.lib
     _, value = visitor_impls(lib)
